@@ -379,3 +379,54 @@ def compare_common(hA, cfgA, hB, cfgB, skip=(), final_only=False):
                 dif.append("%s record of step %d differs at element %d: %s vs %s" % (
                     ds, k, j, a[j] if j >= 0 else len(a), b[j] if j >= 0 else len(b)))
     return dif, ncmp
+
+
+# ---------------------------------------------------------------------------------------------------------
+# interrupt points INSIDE library calls (C14; harness/sigshim.c, an LD_PRELOAD shim built here - plain C, no repo code)
+
+def build_shim():
+    """path of the shared object built from harness/sigshim.c (cached by source text); raises RuntimeError when it does not build"""
+    import hashlib
+    src = os.path.join(VERIF, "harness", "sigshim.c")
+    key = hashlib.sha1(open(src, "rb").read()).hexdigest()[:12]
+    d = os.path.join(VERIF, ".cache", "shim")
+    os.makedirs(d, exist_ok=True)
+    so = os.path.join(d, "sigshim-%s.so" % key)
+    if not os.path.exists(so):
+        tmp = so + ".tmp%d" % os.getpid()
+        r = subprocess.run(["timeout", "120", "gcc", "-shared", "-fPIC", "-O1", "-w", "-I/usr/include/hdf5/serial", src, "-o", tmp, "-ldl"],
+                           capture_output=True, text=True)
+        if r.returncode != 0:
+            raise RuntimeError("sigshim.c does not build: %s" % r.stderr[-800:])
+        os.replace(tmp, so)
+    return so
+
+
+def run_real_lib(tg, cfg, out, shim, lib_at=None, rep=False, after=False, timeout=60):
+    """one run of the binary under the shim: logs every wrapped library call; with lib_at raises SIGINT inside that call.
+    Returns the dict of run_real plus calls=[(index, function, points passed)] and raised=[...] (same triples)."""
+    log = out + ".liblog"
+    rsd = out + ".raised"
+    for p in (log, rsd):
+        if os.path.exists(p):
+            os.remove(p)
+    env = {"LD_PRELOAD": shim, "VERIF_LIBSIG_LOG": log, "VERIF_LIBSIG_RAISED": rsd}
+    if lib_at is not None:
+        env["VERIF_LIBSIG_AT"] = str(lib_at)
+        if rep:
+            env["VERIF_LIBSIG_REPEAT"] = "1"
+        if after:
+            env["VERIF_LIBSIG_WHEN"] = "after"
+    r = run_real(tg, cfg, out, timeout=timeout, extra_env=env)
+
+    def triples(p):
+        res = []
+        if os.path.exists(p):
+            for line in open(p):
+                q = line.split()
+                if len(q) == 3:
+                    res.append((int(q[0]), q[1], int(q[2])))
+        return res
+    r["calls"] = triples(log)
+    r["raised"] = triples(rsd)
+    return r
